@@ -44,6 +44,46 @@ class SlotChild(SlotBase):
         self.name = "n"
 
 
+class SlotA:
+    __slots__ = ("a",)
+
+    def __init__(self):
+        self.a = 1
+
+
+class SlotB(SlotA):
+    """slots-only hierarchy: the inherited slot is part of the object"""
+    __slots__ = ("b", "_hidden")
+
+    def __init__(self):
+        super().__init__()
+        self.b, self._hidden = 2, 3
+
+
+class StrSlot:
+    """a single slot spelled as a string (legal Python)"""
+    __slots__ = "value"
+
+    def __init__(self):
+        self.value = 5
+
+
+class PlainCV:
+    """a plain annotated class with a class variable: not a field of its instances"""
+    kind: typing.ClassVar[str] = "k"
+    y: int
+
+    def __init__(self):
+        self.y = 2
+
+
+class VarsCtor:
+    """a vars-only class whose constructor parameter is not the attribute it sets"""
+
+    def __init__(self, x=1):
+        self.y = x
+
+
 @dataclasses.dataclass
 class DC:
     a: int
@@ -97,6 +137,10 @@ def cases():
     out.append(("subclass of a NamedTuple, 2-elem first field", lambda: NTSub((1, 2), 3), [("a", (1, 2)), ("b", 3)], [(1, 2), 3]))
     out.append(("subclass of a namedtuple, 2-elem first field", lambda: NTColl((1, 5), "s"), [("x", (1, 5)), ("y", "s")], [(1, 5), "s"]))
     out.append(("slotted child of a slotted annotated base", lambda: SlotChild(), [("ident", 1), ("name", "n")], [1, "n"]))
+    out.append(("slots-only hierarchy", lambda: SlotB(), [("a", 1), ("b", 2)], [1, 2]))
+    out.append(("__slots__ given as one string", lambda: StrSlot(), [("value", 5)], [5]))
+    out.append(("plain annotated class with a ClassVar", lambda: PlainCV(), [("y", 2)], [2]))
+    out.append(("vars-only class, constructor parameter named differently", lambda: VarsCtor(), [("y", 1)], [1]))
     out.append(("dataclass private field", lambda: DC(1), [("a", 1), ("b", "x")], [1, "x"]))
     out.append(("slots-only", lambda: Slots(), [("p", 1)], [1]))
     out.append(("vars-only", lambda: VarsOnly(), [("u", 1), ("w", 3)], [1, 3]))
